@@ -268,6 +268,9 @@ class Exec:
         info = _loop_state(st.body, _names(st.target))
         carried = sorted(info["carried"])
         lists = sorted(info["lists"])
+        # accumulators by ROLE (k-th list mutated in the loop body, in source order): invariants refer to
+        # env["_acc"][k], so renaming a local does not break them
+        acc_names = [n for n in _mutated_lists_in_order(st.body) if n in info["lists"]]
         if (carried or lists) and inv is None:
             raise Unsupported(
                 f"loop #{ordinal} at line {st.lineno} carries state {carried + lists} and has no invariant"
@@ -277,6 +280,7 @@ class Exec:
         # ---- invariant holds on entry
         if inv is not None:
             fr.env["_i"] = 0
+            fr.env["_acc"] = [fr.env.get(n) for n in acc_names]
             self.oblige(f"inv-init:loop{ordinal}", fr, self.eval_spec(inv, fr), st)
         # ---- one arbitrary iteration
         i = fresh_int("i")
@@ -291,6 +295,7 @@ class Exec:
             else:
                 body.env.pop(name, None)
         body.env["_i"] = i
+        body.env["_acc"] = [body.env.get(n) for n in acc_names]
         if inv is not None:
             self.assume(body, zbool(self.eval_spec(inv, body)))
         self.assign(st.target, it.get(i), body)
@@ -300,6 +305,7 @@ class Exec:
         for k, f in enumerate(outs):
             if inv is not None:
                 f.env["_i"] = i + 1
+                f.env["_acc"] = [f.env.get(n) for n in acc_names]
                 self.oblige(f"inv-preserved:loop{ordinal}#{k}", f, self.eval_spec(inv, f), st)
             for oid, nb in dict_before.items():
                 st_ = f.heap.get(oid)
@@ -314,6 +320,7 @@ class Exec:
                 pass
             else:
                 fr.env.pop(name, None)
+        fr.env["_acc"] = [fr.env.get(n) for n in acc_names]
         if inv is not None:
             self.assume(fr, zbool(self.eval_spec(inv, fr)))
         if isinstance(st.target, ast.Name):
@@ -325,6 +332,7 @@ class Exec:
         for oid, ents in new_entries.items():
             fr.heap[oid] = DictState(fr.heap[oid].entries + tuple(ents))
         fr.env.pop("_i", None)
+        fr.env.pop("_acc", None)
         return [fr]
 
     def run_while(self, st, fr):
@@ -1385,6 +1393,16 @@ def _names(t):
 
 def _count_loops(stmts):
     return sum(1 for st in stmts for n in ast.walk(st) if isinstance(n, (ast.For, ast.While)))
+
+
+def _mutated_lists_in_order(body):
+    out = []
+    for st in body:
+        for n in ast.walk(st):
+            if isinstance(n, ast.Call) and isinstance(n.func, ast.Attribute) and isinstance(n.func.value, ast.Name) and n.func.attr in ("append", "insert", "extend", "reverse"):
+                if n.func.value.id not in out:
+                    out.append(n.func.value.id)
+    return out
 
 
 def _loop_state(body, target_names):
